@@ -938,6 +938,8 @@ class Reader(ABC):
         # Estimate ideal timestamps based on the scanline number. Still without
         # offset, e.g. the first scanline has timestamp 1970-01-01 00:00
         msec_lineno = self.lineno2msec(self.scans["scan_line_number"])
+        # ... relative to the first scanline of the file, which need not be line 1
+        msec_lineno = msec_lineno - msec_lineno[0]
 
         jday = np.where(np.logical_or(jday < 1, jday > 366),
                         np.median(jday), jday)
